@@ -539,6 +539,13 @@ def check(c, tier, replay):
     tr = 0
     tl, cover, tr = tlc_scenarios(c, thorough, tr)
     rs, tr = random_scenarios(c, 500 if not thorough else 6000, tr)
+    # a fixed family of free-running phases (every run has them, whatever the seed draws): thresholds around the number of callers
+    for n, w in ((1, 4), (2, 4), (3, 8), (8, 8), (2, 2), (12, 8)) * (1 if not thorough else 4):
+        tr += 1
+        rs.append([dict(op='new', tr=tr, nres=2, rules=[dict(res=1, N=limbs(n))]),
+                   dict(op='req', res=1, b=limbs(1), id=1), dict(op='storm', res=1, workers=w, iters=400),
+                   dict(op='req', res=1, b=limbs(1), id=2), dict(op='exit', id=1), dict(op='storm', res=1, workers=w, iters=200),
+                   dict(op='req', res=1, b=limbs(1), id=3), dict(op='exit', id=2), dict(op='exit', id=3)])
     ps, tr = path_scenarios(c, thorough, tr)
     rl, tr = reload_tlc_scenarios(c, thorough, tr)
     dl, tr = directed_reload_scenarios(c, tr)
